@@ -24,6 +24,7 @@ open Hive.Seq
 inductive Env
   | close     -- the database is shut down: every access answers `ErrStoreClosed`
   | reopen    -- the database is opened again (same content)
+  | other (n : Nat)   -- another user of the store does its `n`-th operation (other keys, other realms: Hive/Model/SeqKV.lean)
 deriving Repr, DecidableEq
 
 /-- A store layer as the Sequence sees it, for the one key it uses. -/
@@ -205,6 +206,7 @@ deriving Repr, DecidableEq
 def denv : Env → Disk → Disk
   | .close, d => { d with closed := true }
   | .reopen, d => { d with closed := false }
+  | .other _, d => d        -- seen through the one key of the sequence, the others' operations change nothing
 
 /-- A plain view (`mapdb`, any realm): a closed store answers `ErrStoreClosed` and does nothing. -/
 def plainLayer : Layer Disk :=
